@@ -660,8 +660,8 @@ def gen_C10(r, tier):
         t = r.pick([4, 8, 16])
         cases.append("s2m 8 5 %d fa %s" % (t, hxlist(recs)))                 # lines of about 60 KiB
         cases.append("m2s 8 5 %d fa %s" % (t, hxlist(recs)))
-        # a run at almost every base, 28-mers as text: lines of about 200 KiB (the run model is quadratic in the record length)
-        cases.append("s2m 29 28 %d fa %s" % (r.pick([8, 16]), hxlist([long_record(r, 5000 + r.below(500)) for _ in range(8)] + many_records(r, 10, 20, 60))))
+        # a run at almost every base, 28-mers as text: 24 lines of about 160 KiB each (the run model is quadratic in the record length)
+        cases.append("s2m 29 28 %d fa %s" % (r.pick([8, 16]), hxlist([long_record(r, 4000 + r.below(500)) for _ in range(24)] + many_records(r, 10, 20, 60))))
     # more than ten thousand short records, handled within a second (progress reporting every 10000 records)
     recs = [bytes(r.choices(NUC, k=12 + r.below(4))) for _ in range(10500 if n <= 400 else 25000)]
     cases.append("s2m 0 7 %d fa %s" % (r.pick([1, 4]), hxlist(recs)))
